@@ -401,6 +401,13 @@ Example C19_nonvacuous_invalid :
   in_domain_kMinPathError kf = false /\ validate_kMinPathError kf = RaiseValueError /\ validate_kPathCover k0 = RaiseValueError /\
   in_domain_kFlowDecomp cov0 = false /\ deviates_kFlowDecomp cov0 = false /\ validate_kFlowDecomp cov0 = RaiseValueError /\
   in_domain_kFlowDecomp absent = false /\ validate_kFlowDecomp absent = RaiseValueError /\
+  (let one := [ {| c_is_list := true; c_items := [good_item] |} ] in
+   (* a malformed coverage is rejected also when a valid length-based coverage is passed along; a valid one is accepted *)
+   validate_kLeastAbsErrors (set_covlen (set_cons ex_dag one (3#2)%Q) (Some (1#2)%Q) true) = RaiseValueError /\
+   in_domain_kLeastAbsErrors (set_covlen (set_cons ex_dag one (3#2)%Q) (Some (1#2)%Q) true) = false /\
+   validate_kLeastAbsErrors (set_covlen (set_cons ex_dag one 1%Q) (Some (1#2)%Q) true) = Accept /\
+   validate_kLeastAbsErrors (set_covlen (set_cons ex_dag one 1%Q) (Some (1#2)%Q) false) = RaiseValueError /\
+   validate_kLeastAbsErrors (set_covlen (set_cons ex_dag one (1#2)%Q) (Some (1#2)%Q) true) = RaiseValueError) /\
   validate_stDiGraph (set_starts ex_graph false []) = RaiseValueError /\
   validate_MinErrorFlow (set_flags ex_graph false true true [true; false]) = RaiseValueError.
 Proof. vm_compute. repeat split; reflexivity. Qed.
